@@ -83,7 +83,7 @@ def compare(ra, rb, rtol, circ=False, atol=0.0, circ_atol=1e-6, exact=False):
     return True, None
 
 
-CANCEL = {"dspr": 1.0, "dpspr": 1.0, "swe": 0.02, "sw": 0.02, "gw": None}
+CANCEL = {"dspr": 1.0, "dpspr": 1.0, "dpspr_mom2": 1.0, "swe": 0.02, "sw": 0.02, "gw": None}
 
 
 def cancel_rtol(name, v, f32):
@@ -92,7 +92,7 @@ def cancel_rtol(name, v, f32):
     error eps in r becomes eps/(2q) relative in v."""
     eps = 4e-7 if f32 else 1e-12
     v = np.asarray(v, dtype="float64")
-    q = (np.radians(v) ** 2) / 2.0 if name in ("dspr", "dpspr") else v ** 2
+    q = (np.radians(v) ** 2) / 2.0 if name in ("dspr", "dpspr", "dpspr_mom2") else v ** 2
     return 4.0 * eps / np.maximum(q, 1e-12) + 8.0 * eps
 
 
